@@ -892,25 +892,47 @@ class Sim:
         self.log = session.log
         self.mark = len(self.log)
         self.root = session.root
-        self.sdir = self.root / "s"
-        self.ddir = self.root / "d"
-        for d in (self.sdir, self.ddir):
-            if d.exists():
-                shutil.rmtree(d)
-            d.mkdir()
-        self.src_path = self.sdir / "src.bin"
+        self.mem = bool(getattr(src_vfs, "is_mem", False))
         dk = case.get("dest_kind", "file")
-        if dk == "dir":
-            (self.ddir / "sub").mkdir()
-            self.dest_arg = self.ddir / "sub"
-            self.dest_path = self.ddir / "sub" / "src.bin"
+        if self.mem:
+            # purely in-memory filestores: none of these paths exists on the host (C16)
+            from .memfs import MEM_ROOT
+
+            base = Path(MEM_ROOT) / name
+            self.sdir, self.ddir = base / "s", base / "d"
+            src_vfs.mkdirs(self.sdir)
+            dst_vfs.mkdirs(self.ddir)
+            self.src_path = self.sdir / "src.bin"
+            if dk == "dir":
+                dst_vfs.mkdirs(self.ddir / "sub")
+                self.dest_arg = self.ddir / "sub"
+                self.dest_path = self.ddir / "sub" / "src.bin"
+            else:
+                self.dest_arg = self.ddir / "dst.bin"
+                self.dest_path = self.dest_arg
+                if dk == "existing":
+                    dst_vfs.put(self.dest_path, b"OLD-CONTENT-" * 7)
+            if content is not None:
+                src_vfs.put(self.src_path, content)
         else:
-            self.dest_arg = self.ddir / "dst.bin"
-            self.dest_path = self.dest_arg
-            if dk == "existing":
-                self.dest_path.write_bytes(b"OLD-CONTENT-" * 7)
-        if content is not None:
-            self.src_path.write_bytes(content)
+            self.sdir = self.root / "s"
+            self.ddir = self.root / "d"
+            for d in (self.sdir, self.ddir):
+                if d.exists():
+                    shutil.rmtree(d)
+                d.mkdir()
+            self.src_path = self.sdir / "src.bin"
+            if dk == "dir":
+                (self.ddir / "sub").mkdir()
+                self.dest_arg = self.ddir / "sub"
+                self.dest_path = self.ddir / "sub" / "src.bin"
+            else:
+                self.dest_arg = self.ddir / "dst.bin"
+                self.dest_path = self.dest_arg
+                if dk == "existing":
+                    self.dest_path.write_bytes(b"OLD-CONTENT-" * 7)
+            if content is not None:
+                self.src_path.write_bytes(content)
         self.src, self.dst = session.src, session.dst
         self.src_user, self.src_fh, self.seqp = session.src_user, session.src_fh, session.seqp
         if case.get("via") == "alt":
@@ -1123,6 +1145,8 @@ class Sim:
 
     # -- results
     def dest_bytes(self):
+        if self.mem:
+            return self.dst_vfs.get(self.dest_path)
         try:
             return self.dest_path.read_bytes()
         except (FileNotFoundError, IsADirectoryError):
